@@ -42,17 +42,26 @@ class FileProxy:
             raise OSError(errno.ENOSPC, f"injected ENOSPC after a short write to {_os.path.basename(self._path)}")
         if self._path in self._shim.full_paths:
             raise OSError(errno.ENOSPC, f"injected ENOSPC writing to {_os.path.basename(self._path)}")
-        return self._real.write(data)
+        try:
+            return self._real.write(data)
+        finally:
+            self._shim.done()
 
     def flush(self):
         self._shim.op("flush", self._path)
-        return self._real.flush()
+        try:
+            return self._real.flush()
+        finally:
+            self._shim.done()
 
     def close(self):
         if self._real.closed:
             return None
         self._shim.op("close", self._path)
-        return self._real.close()
+        try:
+            return self._real.close()
+        finally:
+            self._shim.done()
 
     def fileno(self):
         return self._real.fileno()
@@ -77,26 +86,41 @@ class OsProxy:
 
     def rename(self, a, b, *args, **kw):
         self._shim.op("rename", f"{_os.path.basename(str(a))}->{_os.path.basename(str(b))}")
-        return _os.rename(a, b, *args, **kw)
+        try:
+            return _os.rename(a, b, *args, **kw)
+        finally:
+            self._shim.done()
 
     def replace(self, a, b, *args, **kw):
         self._shim.op("replace", f"{_os.path.basename(str(a))}->{_os.path.basename(str(b))}")
-        return _os.replace(a, b, *args, **kw)
+        try:
+            return _os.replace(a, b, *args, **kw)
+        finally:
+            self._shim.done()
 
     def remove(self, a, *args, **kw):
         self._shim.op("remove", _os.path.basename(str(a)))
-        return _os.remove(a, *args, **kw)
+        try:
+            return _os.remove(a, *args, **kw)
+        finally:
+            self._shim.done()
 
     def unlink(self, a, *args, **kw):
         self._shim.op("remove", _os.path.basename(str(a)))
-        return _os.unlink(a, *args, **kw)
+        try:
+            return _os.unlink(a, *args, **kw)
+        finally:
+            self._shim.done()
 
     # the same file operations through the descriptor-level API (os.open / os.fdopen / os.write / os.close / os.link)
     def open(self, path, flags, *args, **kw):
         if not self._shim.active or not flags & (_os.O_WRONLY | _os.O_RDWR | _os.O_CREAT | _os.O_APPEND | _os.O_TRUNC):
             return _os.open(path, flags, *args, **kw)
         self._shim.op("open", path)
-        fd = _os.open(path, flags, *args, **kw)
+        try:
+            fd = _os.open(path, flags, *args, **kw)
+        finally:
+            self._shim.done()
         self._shim.fds[fd] = str(path)
         return fd
 
@@ -109,32 +133,53 @@ class OsProxy:
     def write(self, fd, data):
         if fd in self._shim.fds:
             self._shim.op("write", self._shim.fds[fd])
-        return _os.write(fd, data)
+        try:
+            return _os.write(fd, data)
+        finally:
+            self._shim.done()
 
     def close(self, fd):
         if fd in self._shim.fds:
             self._shim.op("close", self._shim.fds.pop(fd))
-        return _os.close(fd)
+        try:
+            return _os.close(fd)
+        finally:
+            self._shim.done()
 
     def link(self, a, b, *args, **kw):
         self._shim.op("link", f"{_os.path.basename(str(a))}->{_os.path.basename(str(b))}")
-        return _os.link(a, b, *args, **kw)
+        try:
+            return _os.link(a, b, *args, **kw)
+        finally:
+            self._shim.done()
 
     def symlink(self, a, b, *args, **kw):
         self._shim.op("symlink", f"{_os.path.basename(str(a))}->{_os.path.basename(str(b))}")
-        return _os.symlink(a, b, *args, **kw)
+        try:
+            return _os.symlink(a, b, *args, **kw)
+        finally:
+            self._shim.done()
 
     def truncate(self, path, length):
         self._shim.op("truncate", _os.path.basename(str(path)))
-        return _os.truncate(path, length)
+        try:
+            return _os.truncate(path, length)
+        finally:
+            self._shim.done()
 
     def fsync(self, fd):
         self._shim.op("fsync", self._shim.fds.get(fd, f"fd{fd}"))
-        return _os.fsync(fd)
+        try:
+            return _os.fsync(fd)
+        finally:
+            self._shim.done()
 
     def fdatasync(self, fd):
         self._shim.op("fsync", self._shim.fds.get(fd, f"fd{fd}"))
-        return _os.fdatasync(fd)
+        try:
+            return _os.fdatasync(fd)
+        finally:
+            self._shim.done()
 
     def __getattr__(self, name):
         return getattr(_os, name)
@@ -155,10 +200,19 @@ class Shim:
         self.active = True
         self.short_now = False
         self.full_paths = set()
+        self.on_op = None
+        self.on_done = None
+
+    def done(self):
+        """The real operation announced by the last op() of this thread has returned (or raised)."""
+        if self.on_done is not None and self.active:
+            self.on_done()
 
     def op(self, name, path):
         if not self.active:
             return
+        if self.on_op is not None:
+            self.on_op(name, path)     # a scheduler may park the calling thread here
         idx = self.n
         self.n += 1
         base = _os.path.basename(str(path)) if name in ("open", "write", "flush", "close", "fsync") else path
@@ -184,7 +238,10 @@ class Shim:
         if not self.active or not any(ch in mode for ch in "wax+"):
             return builtins.open(path, mode, *args, **kw)
         self.op("open", path)
-        real = builtins.open(path, mode, *args, **kw)
+        try:
+            real = builtins.open(path, mode, *args, **kw)
+        finally:
+            self.done()
         return FileProxy(real, self, str(path))
 
     def install(self):
